@@ -179,8 +179,16 @@ func c20One(c *run.C) {
 					uerr = eerr
 					return
 				}
+				chunk := r.Range(1, 64)
+				if !hook.Enabled {
+					// without the finalize hook only the one-shot entry point
+					// completes a document (counted containers, top-level numbers)
+					uerr = cd.Parse(buf, u)
+					mon.Scribble(buf)
+					return
+				}
 				p := cd.NewParser(u)
-				for _, ch := range mon.Chunks(buf, []int{r.Range(1, 64)}) {
+				for _, ch := range mon.Chunks(buf, []int{chunk}) {
 					if _, uerr = p.Write(ch); uerr != nil {
 						return
 					}
